@@ -75,3 +75,10 @@ reg("C07", asan=True, crash_is_violation=True,
     rule="case = (operation x chunking kind x dtype x scheduler x workers x leading dims) and (stress: shape mix x workers x datasets, 5 repetitions); distinct = distinct keys; non-trivial = data actually dask-backed and compared",
     must_observe=["hs", "tp", "ptm1", "ptm3", "interp", "smooth", "stress"],
     must_note=["thread_switches_between_native_calls"])
+
+reg("C10",
+    technique="runtime metamorphic monitor on pairs of recorded runs (S, kS) and (S, S with directions relabelled by +a) plus bound invariants and a scale_by_hs post-condition",
+    level_text="For every sampled statistic the real accessor is run on S and on k*S (k log-uniform in [1e-6,1e6]) and on S with dir -> (dir+a)%360 (a any real, incl. whole bins, 180, 360); heights must scale by sqrt k, drift/slope/alpha by k, directions shift by a mod 360 and everything else stay equal. On non-degenerate spectra the stated bounds are asserted on the recorded values, and scale_by_hs must give exactly expr(Hs) where all ranges are met and bit-identical spectra elsewhere. Held = on the pairs observed.",
+    level_note="Trusted: numpy. Tolerances 1e-9 (float64) / 3e-5 (float32 and the float32 peak statistics). Degenerate spectra (energy in fewer than two frequencies or directions holding 1 % each), discrete ties and range edges within rounding are inconclusive.",
+    rule="case = (relation x statistic x dtype x nd x spectrum class), bounds: (bound x dtype x nd x nf x class), scale_by_hs: (expression x dtype x active ranges x in/out of range); distinct = distinct keys",
+    must_observe=["scaling:hs", "scaling:uss", "rotation:dm", "rotation:dp", "rotation:tm01", "bounds", "scale_by_hs"])
